@@ -1783,7 +1783,7 @@ func main() {
 		return
 	}
 	rng := hx.NewRng(a.Seed)
-	for run.NOps < a.N {
+	for run.NOps < a.N && !run.Enough() {
 		generateEpisode(rng, run, exec, func() *episode { return ep })
 	}
 	if ep != nil {
